@@ -14,6 +14,7 @@ import (
 const (
 	appConfigDir  = "ps3netsrv-go"
 	appConfigFile = "config.ini"
+	configFileEnv = "PS3NETSRV_CONFIG_FILE"
 )
 
 var (
@@ -29,7 +30,7 @@ type app struct {
 	MakeISOApp makeISOApp `cmd:"" name:"make-iso" help:"Make ISO image from directory."`
 
 	Version kong.VersionFlag `help:"Show application version info."`
-	Config  kong.ConfigFlag  `help:"Load configuration from file." env:"PS3NETSRV_CONFIG_FILE"`
+	Config  kong.ConfigFlag  `help:"Load configuration from file ($PS3NETSRV_CONFIG_FILE)."`
 }
 
 func main() {
@@ -58,6 +59,13 @@ func configLocations() []string {
 	}
 
 	ret = append(ret, appConfigFile) // search in current workdir
+
+	// kong handles ConfigFlag only when it's given in command line, so file from environment goes here
+	// (last one to have precedence over default locations)
+	if configFile, ok := os.LookupEnv(configFileEnv); ok && configFile != "" {
+		ret = append(ret, configFile)
+	}
+
 	return ret
 }
 
